@@ -25,7 +25,7 @@ for i in ids:
     })
 m = {
     "version": 1,
-    "setup_cmd": "cd /verif/engine && GOFLAGS=-mod=mod GOPROXY=off GOSUMDB=off go build -o /verif/bin/vcheck ./cmd/vcheck",
+    "setup_cmd": "cd /verif/engine && GOFLAGS=-mod=mod GOPROXY=off go build -o /verif/bin/vcheck ./cmd/vcheck",
     "hooks": {"guard": "verif", "enable": "none needed: harnesses and the verifapi package enter the build through go/packages and `go test` overlays (/verif/harness/overlay); no source hooks in /repo",
               "baseline_off_cmd": "cd /repo && go test -vet=off -count=1 -timeout 25m ./...", "source_commits": [], "add_only": True},
     "engines": [{"name": "gosym", "path": "/verif/engine", "serves_properties": [c["property_id"] for c in checks],
